@@ -4,6 +4,7 @@ package hopserver
 
 import (
 	"io/fs"
+	"net"
 
 	"hop.computer/hop/authgrants"
 	"hop.computer/hop/keys"
@@ -36,6 +37,17 @@ func (s *HopServer) VerifAuthGrantTubeOpeners() []func() (*tubes.Reliable, error
 		out = append(out, sess.newAuthGrantTube)
 	}
 	return out
+}
+
+// VerifListen, when set, replaces the socket NewHopServer opens (the build step of /verif rewrites the two
+// socket lines of the overlay copy to go through verifListen).
+var VerifListen func(addr string) (transport.UDPLike, error)
+
+func verifListen(addr string) (any, error) {
+	if VerifListen != nil {
+		return VerifListen(addr)
+	}
+	return net.ListenPacket("udp", addr)
 }
 
 var _ = authgrants.Shell
